@@ -1,6 +1,7 @@
 import MirGen.Hierarchy
 import MirProofs.Lemmas.PyHier
 import MirProofs.Props.C17
+import MirProofs.Props.C06_Gen
 /-!
   C17 (generated part) — the T- and L-measure kernels of `mir_eval/hierarchy.py` as REGENERATED from the source
   (`MirGen/Hierarchy.lean`, translator part `hierarchy`) equal the hand-written model (`MirModel/Hierarchy.lean`) for ALL
@@ -514,5 +515,131 @@ example : Mir.Gen.hierarchy._meet [[(0, 3)], [(0, 1), (1, 2), (2, 3)]] [["x"], [
       = .ok [[2, 1, 2], [1, 2, 1], [2, 1, 2]]
     ∧ Mir.Gen.hierarchy._meet [[(0, 2)]] [["a", "b"]] 1 = .error .indexError := by
   refine ⟨by decide +kernel, by decide +kernel⟩
+
+/-! ### `tmeasure`, `lmeasure` -/
+
+/-- the tail shared by both public functions: two `_gauc` scores and the regenerated `util.f_measure` of them -/
+theorem prf_tail (beta : Rat) (hb : 0 < beta) (a b : Mat) (tr : Bool) (wf : Option Nat) :
+    (gauc a b tr wf >>= fun r => gauc b a tr wf >>= fun p =>
+        Mir.Gen.util.f_measure p r beta >>= fun f => (pure (p, r, f) : Py (Rat × Rat × Rat)))
+      = (gauc a b tr wf >>= fun r => gauc b a tr wf >>= fun p => pure (p, r, fMeasure p r beta)) := by
+  cases hr : gauc a b tr wf with
+  | error e => rfl
+  | ok r =>
+    cases hp : gauc b a tr wf with
+    | error e => rfl
+    | ok p =>
+      simp only [ok_bind]
+      rw [Mir.C06.Gen.f_measure_ok (Hierarchy.gauc_range hp).1 (Hierarchy.gauc_range hr).1 (ne_of_gt hb)]
+      rfl
+
+/-- **`tmeasure` as translated = the hand model** (`Hierarchy.tmeasure`) for ALL hierarchies, both `transitive` values, every
+    window (`None`, below / equal to / above the frame size), every `frame_size` (≤ 0: the same `ValueError`) and `beta > 0`:
+    the same value or the same exception class, in the same order of checks; the checked cast of the window's frame count
+    never fires -/
+theorem tmeasure_eq_model (ref est : Hier) (tr : Bool) (window : Option Rat) (fs beta : Rat) (hb : 0 < beta) :
+    Mir.Gen.hierarchy.tmeasure ref est tr window fs beta = Hierarchy.tmeasure ref est tr window fs beta := by
+  unfold Mir.Gen.hierarchy.tmeasure Hierarchy.tmeasure
+  by_cases h0 : fs ≤ 0
+  · simp only [h0, decide_true, if_true, throw_eq_error]
+  · have hfs : 0 < fs := lt_of_not_ge h0
+    simp only [h0, decide_false, Bool.false_eq_true, if_false]
+    have tail := prf_tail beta hb
+    cases window with
+    | none =>
+      simp only [pure_eq_ok, ok_bind, windowFrames, natOfIntOpt, validate_hier_intervals, _lca_eq_model _ _ hfs,
+        _gauc_eq_model]
+      cases validateHier ref with
+      | error e => rfl
+      | ok _ =>
+        cases validateHier est with
+        | error e => rfl
+        | ok _ =>
+          cases lca ref fs with
+          | error e => rfl
+          | ok rl =>
+            cases lca est fs with
+            | error e => rfl
+            | ok el => simp only [ok_bind]; exact tail rl el tr none
+    | some w =>
+      by_cases hw : fs > w
+      · simp only [hw, decide_true, if_true, throw_eq_error, windowFrames, error_bind]
+      · have hk : 0 ≤ frameOf w fs := by
+          unfold frameOf
+          exact Rat.le_floor_iff.2 (by
+            have : 0 ≤ w := le_trans (le_of_lt hfs) (le_of_not_gt hw)
+            exact_mod_cast div_nonneg this (le_of_lt hfs))
+        simp only [hw, decide_false, Bool.false_eq_true, if_false, Mir.Gen.hierarchy._round, pure_eq_ok, ok_bind, windowFrames,
+          pyInt_round_div w fs hfs, natOfIntOpt, if_neg (not_lt.2 hk), validate_hier_intervals, _lca_eq_model _ _ hfs,
+          _gauc_eq_model]
+        cases validateHier ref with
+        | error e => rfl
+        | ok _ =>
+          cases validateHier est with
+          | error e => rfl
+          | ok _ =>
+            cases lca ref fs with
+            | error e => rfl
+            | ok rl =>
+              cases lca est fs with
+              | error e => rfl
+              | ok el => simp only [ok_bind]; exact tail rl el tr _
+
+/-- **`lmeasure` as translated = the hand model** (`Hierarchy.lmeasure`) for ALL hierarchies and label lists, every
+    `frame_size` and `beta > 0` -/
+theorem lmeasure_eq_model (ref : Hier) (rl : List (List String)) (est : Hier) (el : List (List String)) (fs beta : Rat)
+    (hb : 0 < beta) :
+    Mir.Gen.hierarchy.lmeasure ref rl est el fs beta = Hierarchy.lmeasure ref rl est el fs beta := by
+  unfold Mir.Gen.hierarchy.lmeasure Hierarchy.lmeasure
+  by_cases h0 : fs ≤ 0
+  · simp only [h0, decide_true, if_true, throw_eq_error]
+  · have hfs : 0 < fs := lt_of_not_ge h0
+    simp only [h0, decide_false, Bool.false_eq_true, if_false, pure_eq_ok, ok_bind, validate_hier_intervals,
+      _meet_eq_model _ _ _ hfs, _gauc_eq_model]
+    have tail := prf_tail beta hb
+    cases validateHier ref with
+    | error e => rfl
+    | ok _ =>
+      cases validateHier est with
+      | error e => rfl
+      | ok _ =>
+        cases meet ref rl fs with
+        | error e => rfl
+        | ok rm =>
+          cases meet est el fs with
+          | error e => rfl
+          | ok em => simp only [ok_bind]; exact tail rm em true none
+
+/-- the defaults of the translated signatures: `transitive=False, window=15.0, frame_size=0.1, beta=1.0` -/
+theorem tmeasure_defaults (ref est : Hier) :
+    Mir.Gen.hierarchy.tmeasure ref est = Hierarchy.tmeasure ref est false (some 15) (1 / 10) 1 :=
+  tmeasure_eq_model ref est false (some 15) (1 / 10) 1 (by norm_num)
+
+/-- C17 headline on the translated public function: whenever the translated `tmeasure` returns, recall is the
+    triplet-ranking definition on the LCA matrices of (reference, estimate), precision the same with the roles exchanged,
+    over `⌊window / frame_size⌋` frames, F is `f_measure` of the two, all in [0, 1] -/
+theorem gen_tmeasure_spec (ref est : Hier) (tr : Bool) (window : Option Rat) (fs beta p r f : Rat) (hb : 0 < beta)
+    (h : Mir.Gen.hierarchy.tmeasure ref est tr window fs beta = .ok (p, r, f)) :
+    (∃ (n : Nat) (wf : Option Nat) (rl el : Mat),
+      windowFrames window fs = .ok wf ∧ lca ref fs = .ok rl ∧ lca est fs = .ok el
+      ∧ IsSquare n rl ∧ IsSquare n el
+      ∧ r = gaucSpec rl el tr (winOf wf n) ∧ p = gaucSpec el rl tr (winOf wf n) ∧ f = fMeasure p r beta)
+    ∧ (0 ≤ p ∧ p ≤ 1) ∧ (0 ≤ r ∧ r ≤ 1) ∧ (0 ≤ f ∧ f ≤ 1) := by
+  rw [tmeasure_eq_model _ _ _ _ _ _ hb] at h
+  exact ⟨Mir.C17.tmeasure_spec ref est tr window fs beta p r f h, Mir.C17.tmeasure_range ref est tr window fs beta p r f h⟩
+
+/-- the same for the translated `lmeasure` (meet matrices, all level differences, no window) -/
+theorem gen_lmeasure_spec (ref est : Hier) (rls els : List (List String)) (fs beta p r f : Rat) (hb : 0 < beta)
+    (h : Mir.Gen.hierarchy.lmeasure ref rls est els fs beta = .ok (p, r, f)) :
+    (∃ (n : Nat) (rm em : Mat),
+      meet ref rls fs = .ok rm ∧ meet est els fs = .ok em ∧ IsSquare n rm ∧ IsSquare n em
+      ∧ r = gaucSpec rm em true n ∧ p = gaucSpec em rm true n ∧ f = fMeasure p r beta)
+    ∧ (0 ≤ p ∧ p ≤ 1) ∧ (0 ≤ r ∧ r ≤ 1) ∧ (0 ≤ f ∧ f ≤ 1) := by
+  rw [lmeasure_eq_model _ _ _ _ _ _ hb] at h
+  exact ⟨Mir.C17.lmeasure_spec ref est rls els fs beta p r f h, Mir.C17.lmeasure_range ref est rls els fs beta p r f h⟩
+
+example : Mir.Gen.hierarchy.tmeasure [[(0, 4)], [(0, 2), (2, 4)]] [[(0, 4)], [(0, 1), (1, 4)]] true none 1 1 = .ok (1/3, 1/4, 2/7)
+    ∧ Mir.Gen.hierarchy.tmeasure [[(0, 2)]] [[(0, 2)]] false (some (1/4)) (1/2) 1 = .error .valueError := by
+  constructor <;> decide +kernel
 
 end Mir.C17.Gen
